@@ -73,6 +73,8 @@ type CaseC struct {
 	Svc *SvcC    `json:"svc,omitempty"`
 	Cfg CfgC     `json:"cfg"`
 	Ops []OpC    `json:"ops"`
+	// Fault: Ops[Fault.Step] runs while one dependency of the teamserver fails (c_fault_test.go); nil: none
+	Fault *FaultC `json:"fault,omitempty"`
 }
 
 var tpMagics = []uint32{0xcafebabe, 0x0badf00d, 0x41414141, 0x12345678, 0x000000a1, 0xfffffffe}
@@ -123,8 +125,10 @@ func genC(t *rapid.T) CaseC {
 	if rapid.IntRange(0, 2).Draw(t, "tzset") == 0 {
 		c.Cfg.TZ = rapid.SampledFrom(tzNames).Draw(t, "tz")
 	}
+	// fault-injection dimension: a quarter of the histories; a fault during a third-party registration needs the service
+	fc := genFaultClass(t)
 	kinds := kindsC
-	if rapid.IntRange(0, 4).Draw(t, "svc") < 2 {
+	if rapid.IntRange(0, 4).Draw(t, "svc") < 2 || (fc != nil && fc.kind == "tpreg") {
 		// a third to two fifths of the histories: Service block, live service client, 1-2 registered third-party agent types and
 		// 0-2 third-party sessions announced by the service before the first Demon operation - under ids of the SAME pool
 		kinds = kindsCSvc
@@ -141,28 +145,38 @@ func genC(t *rapid.T) CaseC {
 			c.Ops = append(c.Ops, OpC{Kind: "tpreg", Slot: (first + i) % n, TPType: rapid.IntRange(0, nt-1).Draw(t, "tptype"), Meta: genMetaC(t, fmt.Sprintf("tp%d_", i)), Repr: genRepr(t, fmt.Sprintf("tp%d_", i), true)})
 		}
 	}
+	pre := len(c.Ops) // the sessions announced before the history starts
 	k := rapid.IntRange(1, 14).Draw(t, "nops")
 	for i := 0; i < k; i++ {
 		l := fmt.Sprintf("op%d_", i)
-		op := OpC{
-			Kind: rapid.SampledFrom(kinds).Draw(t, l+"kind"),
-			Slot: rapid.IntRange(0, n-1).Draw(t, l+"slot"), Other: rapid.IntRange(0, n-1).Draw(t, l+"other"),
-			Meta: genMetaC(t, l), KeySeed: rapid.Byte().Draw(t, l+"ks"), ZeroKey: rapid.IntRange(0, 6).Draw(t, l+"zk") == 0,
-			Cut: rapid.IntRange(0, 400).Draw(t, l+"cut"), InnerOwn: rapid.Bool().Draw(t, l+"own"), NewKey: rapid.IntRange(0, 3).Draw(t, l+"nk") == 0,
-			V6: rapid.IntRange(0, 4).Draw(t, l+"v6") == 0,
-		}
-		if c.Svc != nil {
-			op.TPType = rapid.IntRange(0, len(c.Svc.Types)-1).Draw(t, l+"tptype")
-			if op.Kind == "tpreg" || op.Kind == "tpreq" {
-				op.Repr = genRepr(t, l, false)
-			}
-		}
-		if op.Kind == "reg" || op.Kind == "rereg" {
-			op.XFF = rapid.SampledFrom(xffValues).Draw(t, l+"xff")
-		}
-		c.Ops = append(c.Ops, op)
+		c.Ops = append(c.Ops, genOpC(t, l, rapid.SampledFrom(kinds).Draw(t, l+"kind"), n, c.Svc))
+	}
+	if fc != nil {
+		// fault-injection dimension (c_fault_test.go): one step of this history runs while one dependency fails
+		placeFault(t, &c, fc, pre)
 	}
 	return c
+}
+
+// genOpC draws one operation of the given kind over n ids.
+func genOpC(t *rapid.T, l, kind string, n int, svc *SvcC) OpC {
+	op := OpC{
+		Kind: kind,
+		Slot: rapid.IntRange(0, n-1).Draw(t, l+"slot"), Other: rapid.IntRange(0, n-1).Draw(t, l+"other"),
+		Meta: genMetaC(t, l), KeySeed: rapid.Byte().Draw(t, l+"ks"), ZeroKey: rapid.IntRange(0, 6).Draw(t, l+"zk") == 0,
+		Cut: rapid.IntRange(0, 400).Draw(t, l+"cut"), InnerOwn: rapid.Bool().Draw(t, l+"own"), NewKey: rapid.IntRange(0, 3).Draw(t, l+"nk") == 0,
+		V6: rapid.IntRange(0, 4).Draw(t, l+"v6") == 0,
+	}
+	if svc != nil {
+		op.TPType = rapid.IntRange(0, len(svc.Types)-1).Draw(t, l+"tptype")
+		if op.Kind == "tpreg" || op.Kind == "tpreq" {
+			op.Repr = genRepr(t, l, false)
+		}
+	}
+	if op.Kind == "reg" || op.Kind == "rereg" {
+		op.XFF = rapid.SampledFrom(xffValues).Draw(t, l+"xff")
+	}
+	return op
 }
 
 func keyFrom(seed byte, zero bool) ([]byte, []byte) {
@@ -399,9 +413,21 @@ func checkC(c CaseC) *core.Violation {
 		created = append(created, fmt.Sprintf("%08x", id))
 	}
 
+	// fault-injection dimension: the step fs runs while one dependency fails; the fault is lifted before the state is
+	// compared and before the next step.  The model is the same with and without the fault (HEAD: c_fault_test.go)
+	fs := c.faultStep()
+	lift := func() {}
+	defer func() { lift() }()
+	underFault := map[uint32]bool{} // sessions created by the step that ran under the fault
+
 	for si, op := range c.Ops {
+		lift()
 		id := c.IDs[op.Slot%len(c.IDs)]
 		key, iv := keyFrom(op.KeySeed, op.ZeroKey)
+		if si == fs {
+			lift = injectFault(w, c.Fault, id)
+		}
+		nCreated := len(created)
 		remote := "10.9.8.7:5555"
 		ext := "10.9.8.7"
 		if c.Cfg.TrustXFF {
@@ -684,8 +710,37 @@ func checkC(c CaseC) *core.Violation {
 				add(id, &modelC{tp: true, magic: ty, rec: rec})
 			}
 		}
-		if v := invariant(si, op.Kind); v != nil {
+		lift()
+		kind := op.Kind
+		if si == fs {
+			for _, n := range created[nCreated:] {
+				var x uint32
+				fmt.Sscanf(n, "%x", &x)
+				underFault[x] = true
+			}
+			kind += "-under-fault(" + c.Fault.Dep + ")"
+		}
+		if v := invariant(si, kind); v != nil {
 			return v
+		}
+	}
+	lift()
+	if fs >= 0 {
+		// what the teamserver RECORDS, after a history with a fault: every session that registered while the database worked has
+		// its one row, no id has two rows, no row is without a session (a refused registration changes nothing)
+		rows := dbRowsC(w)
+		for id, n := range rows {
+			if n > 1 {
+				return core.V("record|database|duplicate-row", "after the history: %d rows of TS_Agents share AgentID %08x", n, id)
+			}
+			if model[id] == nil {
+				return core.V("record|database|row-without-session", "after the history: TS_Agents has a row for %08x, no session was registered under that id (sessions %v)", id, sessionIDs(w))
+			}
+		}
+		for id := range model {
+			if !underFault[id] && rows[id] != 1 {
+				return core.V("record|database|session-without-row", "after the history (fault %s/%s/%s at step %d, lifted afterwards): session %08x, registered while the database worked, has %d rows in TS_Agents", c.Fault.Dep, c.Fault.Op, c.Fault.How, fs, id, rows[id])
+			}
 		}
 	}
 	return nil
@@ -815,6 +870,7 @@ func classifyC(c CaseC) core.Class {
 	} else {
 		cl.Labels = append(cl.Labels, "env:time.Local=default")
 	}
+	cl.Labels = append(cl.Labels, faultLabels(c)...)
 	coll := map[string]bool{}
 	if c.Svc != nil {
 		cl.Labels = append(cl.Labels, fmt.Sprintf("svc:live-service-with-%d-types", len(c.tpTypes())))
@@ -834,6 +890,9 @@ func classifyC(c CaseC) core.Class {
 	}
 	sort.Strings(names)
 	cl.Fingerprint = strings.Join(names, "+") + fmt.Sprintf("|n=%d", len(c.Ops)/4)
+	if c.faultStep() >= 0 {
+		cl.Fingerprint += "|fault=" + c.Fault.Dep
+	}
 	if c.Svc != nil {
 		nc := len(coll)
 		if nc > 2 {
@@ -847,13 +906,15 @@ func classifyC(c CaseC) core.Class {
 func TestC03c(t *testing.T) {
 	core.Run(t, core.Spec[CaseC]{
 		Property: "C03", Sub: "c",
-		Rule: "histories of 1-14 operations over 2-4 agent ids (incl. >=2^31) on the real Teamserver + sqlite + HTTP listener engine: registration, DEMON_INIT for an existing id (alive, marked dead, exited), check-in, operator mark dead/alive, exit callback, COMMAND_CHECKIN callback naming the sender or another id (same or new key), registration with header id 0, truncated registration, a relayed child registration whose encrypted part names another id than its header, registration of a child through SMB_CONNECT; after every step the session table is compared with a model (ids exactly the registered ones and pairwise distinct, key/IV/metadata as sent, registration reply = id under the session key). Non-trivial: history with a re-registration, CHECKIN callback, header-0 registration or SMB registration; distinct = (set of op kinds, length bucket). Added: every history has one operator on a real websocket and the ids of the NewSession events it received must be exactly the ids sessions were created for, in order (told exactly when a session is created). A third of the histories run in a teamserver with a Service block: a live service client on the real service websocket registered 1-2 third-party agent types (canonical magic strings) and announces 0-2 third-party sessions (AgentRegister) before the first Demon operation, under ids of the SAME 2-4 id pool; further operations: tpreg (the service announces a third-party session under a pool id - free, held by a Demon session, held by a third-party session) and tpreq (a third-party agent's request with the registered magic under a pool id through the listener: relayed once, answered with the service's bytes; the service script registers the sender when the teamserver shows it no session, as havoc-py handlers do). Collisions (labels collide:*): DEMON_INIT / re-registration, check-in, CHECKIN-callback batch and EXIT-callback batch of a Demon with its own key under the id of a third-party session, SMB_CONNECT child registration under such an id, CHECKIN callback / header-0 registration / relayed child registration naming such an id, operator mark dead/alive of a third-party session; AgentRegister and third-party requests under the id of a Demon session. Oracle for them (HEAD's handleDemonAgent / SMB_CONNECT / handleServiceAgent behaviour, which is what the property demands): an id that is held is never given a second session, no NewSession event without a new session, the third-party session keeps exactly what its service reported (magic, host, user, domain, ip, process path/name/pid/ppid, sleep) and never gets a Demon key/IV, Demon sessions keep theirs; a refused registration changes nothing (replies to Demon traffic under a third-party id are not judged). Non-trivial also: a history with a collision; distinct gets (service, #collision kinds capped at 2). Added (representation and configuration): every AgentRegister message of the service script - sent directly (tpreg) or for the unknown sender of a relayed request (tpreq) - is WRITTEN in a drawn representation: AgentID as %08x / %x without padding (pool has ids with leading zero nibbles: 1, 2, 0xab, 0xc0ffee, 0xabc1234) / upper case / upper case unpadded / mixed case / 4 extra leading zeros / leading '+' / 0x prefix / surrounding blanks / empty / key missing / JSON number; MagicValue as %x / %08x / upper / mixed / extra zeros / '+' / 0x / blanks / empty / missing / number; Size as decimal string / JSON number / missing / non-decimal string; RegisterInfo complete / any subset of its 14 fields missing / SleepDelay as JSON number / another field as JSON number / host, user and path up to ~90 KB / OS Version with two numbers. What a header denotes is HEAD's own reading, strconv.ParseInt(s, 16, 64) from the standard library: the NUMERIC id it denotes must be free or nothing changes (no two sessions per numeric id whatever the spelling), the session records the denoted magic and exactly the reported fields (missing = zero value); a header that denotes no id or no magic, or a message with a field of a JSON type / shape the teamserver does not read (and survives), registers nothing (for a number in place of a string in RegisterInfo / Size: either nothing, or the values carried). The sessions announced before the history starts use only representations that register. Configuration / environment per history: Demon{TrustXForwardedFor} on in a quarter (HTTPConfig.BehindRedir): registrations carry X-Forwarded-For absent / one address / a list / IPv6, and the recorded ExternalIP must be the header value (\"\" when absent) instead of the peer address; time.Local set to +05:30 / -08:00 / +12:00 / +14:00 / -03:30 in a third (restored after the case)",
+		Rule: "histories of 1-14 operations over 2-4 agent ids (incl. >=2^31) on the real Teamserver + sqlite + HTTP listener engine: registration, DEMON_INIT for an existing id (alive, marked dead, exited), check-in, operator mark dead/alive, exit callback, COMMAND_CHECKIN callback naming the sender or another id (same or new key), registration with header id 0, truncated registration, a relayed child registration whose encrypted part names another id than its header, registration of a child through SMB_CONNECT; after every step the session table is compared with a model (ids exactly the registered ones and pairwise distinct, key/IV/metadata as sent, registration reply = id under the session key). Non-trivial: history with a re-registration, CHECKIN callback, header-0 registration or SMB registration; distinct = (set of op kinds, length bucket). Added: every history has one operator on a real websocket and the ids of the NewSession events it received must be exactly the ids sessions were created for, in order (told exactly when a session is created). A third of the histories run in a teamserver with a Service block: a live service client on the real service websocket registered 1-2 third-party agent types (canonical magic strings) and announces 0-2 third-party sessions (AgentRegister) before the first Demon operation, under ids of the SAME 2-4 id pool; further operations: tpreg (the service announces a third-party session under a pool id - free, held by a Demon session, held by a third-party session) and tpreq (a third-party agent's request with the registered magic under a pool id through the listener: relayed once, answered with the service's bytes; the service script registers the sender when the teamserver shows it no session, as havoc-py handlers do). Collisions (labels collide:*): DEMON_INIT / re-registration, check-in, CHECKIN-callback batch and EXIT-callback batch of a Demon with its own key under the id of a third-party session, SMB_CONNECT child registration under such an id, CHECKIN callback / header-0 registration / relayed child registration naming such an id, operator mark dead/alive of a third-party session; AgentRegister and third-party requests under the id of a Demon session. Oracle for them (HEAD's handleDemonAgent / SMB_CONNECT / handleServiceAgent behaviour, which is what the property demands): an id that is held is never given a second session, no NewSession event without a new session, the third-party session keeps exactly what its service reported (magic, host, user, domain, ip, process path/name/pid/ppid, sleep) and never gets a Demon key/IV, Demon sessions keep theirs; a refused registration changes nothing (replies to Demon traffic under a third-party id are not judged). Non-trivial also: a history with a collision; distinct gets (service, #collision kinds capped at 2). Added (representation and configuration): every AgentRegister message of the service script - sent directly (tpreg) or for the unknown sender of a relayed request (tpreq) - is WRITTEN in a drawn representation: AgentID as %08x / %x without padding (pool has ids with leading zero nibbles: 1, 2, 0xab, 0xc0ffee, 0xabc1234) / upper case / upper case unpadded / mixed case / 4 extra leading zeros / leading '+' / 0x prefix / surrounding blanks / empty / key missing / JSON number; MagicValue as %x / %08x / upper / mixed / extra zeros / '+' / 0x / blanks / empty / missing / number; Size as decimal string / JSON number / missing / non-decimal string; RegisterInfo complete / any subset of its 14 fields missing / SleepDelay as JSON number / another field as JSON number / host, user and path up to ~90 KB / OS Version with two numbers. What a header denotes is HEAD's own reading, strconv.ParseInt(s, 16, 64) from the standard library: the NUMERIC id it denotes must be free or nothing changes (no two sessions per numeric id whatever the spelling), the session records the denoted magic and exactly the reported fields (missing = zero value); a header that denotes no id or no magic, or a message with a field of a JSON type / shape the teamserver does not read (and survives), registers nothing (for a number in place of a string in RegisterInfo / Size: either nothing, or the values carried). The sessions announced before the history starts use only representations that register. Configuration / environment per history: Demon{TrustXForwardedFor} on in a quarter (HTTPConfig.BehindRedir): registrations carry X-Forwarded-For absent / one address / a list / IPv6, and the recorded ExternalIP must be the header value (\"\" when absent) instead of the peer address; time.Local set to +05:30 / -08:00 / +12:00 / +14:00 / -03:30 in a third (restored after the case). Added (fault injection, labels fault:<dependency>:<operation>:<how>@<step kind>): in about a quarter of the histories ONE step runs while ONE dependency of the teamserver fails, then the fault is lifted and the history goes on (in half of them the same agent checks in right after the step). The step is put where it has its effect - a registration (reg / smbreg / tpreg) of a FREE id, a re-registration / check-in / CHECKIN callback / mark dead / exit callback of a HELD Demon session; a Demon registers first when the history offers none. Injected through the real dependency from outside: a second connection of the harness to the case's sqlite file installs a trigger BEFORE INSERT ON TS_Agents (during reg, smbreg, tpreg), BEFORE UPDATE ON TS_Agents (during rereg, check-in, CHECKIN callback, smbreg, mark dead, exit callback), BEFORE INSERT ON TS_Links (smbreg), BEFORE DELETE ON TS_Links (mark dead) that raises 'database or disk is full' and drops it afterwards, or - few cases, HEAD waits its 5 s busy timeout per statement - holds the write lock (BEGIN IMMEDIATE, rarely BEGIN EXCLUSIVE) across a registration; the folder of the console logs (loot/agents) or the session's folder in it is replaced by a regular file during a CHECKIN-callback batch, an exit-callback batch or an SMB_CONNECT. Oracle unchanged, model = HEAD (cmd/server/agent.go: the result of a database write is logged, the session table never depends on it): an acknowledged registration is exactly one session with the sender's id, key, IV and metadata, announced to operators once, also when its row could not be written, and its later check-ins are answered; a failed update / link write / log write changes nothing in the table. After a history with a fault the TS_Agents table is read through a connection of the harness: no AgentID has two rows, no row is without a session, every session that registered while the database worked has its row",
 		Gen:   genC, Check: checkC, Classify: classifyC,
 		Assumptions: []string{
 			"while the findings crash|Havoc/pkg/service.(*Service).dispatch, crash|Havoc/pkg/agent.RegisterInfoToInstance and crash|Havoc/pkg/agent.getWindowsVersionString are open, a message of those classes is NOT sent (the panic is in a goroutine of the teamserver and would end the shard): the history ends there with the known signature; likewise a history ends at the first header that denotes no id / no magic while register|third-party|header-names-no-id|accepted / ...no-magic|accepted are open (HEAD registers it under id / magic 0). About a quarter of the service histories end early that way until the repair is in",
 			"ids and magic values outside 32 bit and negative ones ('-1') are not generated",
 			"the service stays connected for the whole history and answers every relayed request (disconnecting services are C01(d)'s subject)",
 			"collide:* labels are computed on an abstract replay of the history (a history that ends early in a violation would have its later labels counted but not exercised)",
+			"fault classes: the database fails per statement kind and table (trigger) or as a whole for writers (lock held by another connection); read failures alone, a full disk in the middle of a write, a read-only data folder and descriptor exhaustion are not generated. The lock classes occur about 20 times per quick run (each costs the teamserver's 5 s busy timeout) and about 1 in 2000 fault cases in the thorough tier",
+			"fault:*@<kind> and fault:during-* labels are computed on the same abstract replay; whether a session's row must exist is only demanded for sessions created outside the step that ran under the fault",
 		},
 	})
 }
